@@ -3,7 +3,7 @@ import json, os
 import vlib
 
 THEOREMS = ["Slock.C18.C18_server_survives", "Slock.C18.C18_wills_once", "Slock.C18.C18_no_will_without_close",
-            "Slock.C18.C18_wills_run_at_close", "Slock.C18.C18_will_outcomes", "Slock.C18.C18_close_idempotent", "Slock.C18.C18_registered_spec",
+            "Slock.C18.C18_wills_run_at_close", "Slock.C18.C18_admin_wills_run_at_close", "Slock.C18.C18_will_outcomes", "Slock.C18.C18_close_idempotent", "Slock.C18.C18_registered_spec",
             "Slock.C18.C18_routing", "Slock.C18.C18_routing_anonymous_dropped", "Slock.C18.C18_routing_will_replies",
             "Slock.C18.C18_routing_follows_adoption", "Slock.C18.C18_holds_survive", "Slock.C18.C18_no_leak",
             "Slock.C18.C18_pending_answerable"]
@@ -12,12 +12,15 @@ FINISH = {"level": "proof", "assumptions": [
     "BinaryServerProtocol / TextServerProtocol objects on net.Pipe, served like server.handle (Process() until it returns, then Close()), "
     "on a real SLock + LockDB with the virtual clock; every event's outcome (INIT type, where each reply frame went, which wills ran) is compared",
     "the model mirrors /repo after the repairs a1e474f (Close unregisters before the will drain), 66bd35e (text wills executed), 5edcdb1 "
-    "(all-zero proxy id never looked up); the monitors C18:close-stack-overflow / C18:will-not-executed-text / C18:reply-to-unrelated-connection "
+    "(all-zero proxy id never looked up), b4e3914 (ADMIN-nested text protocol ends through Close()); the monitors C18:close-stack-overflow / "
+    "C18:will-not-executed-text / C18:reply-to-unrelated-connection / C18:will-not-executed-admin / C18:session-leak-admin "
     "and the child-process execution of INIT+will lifetimes stay in place, so a regression is reported again",
     "the lock engine is abstract in the model: which tokens the engine answers and when (`d tok`), and whether a will is answered inside the "
     "submitting call (`imm`), are read off the real engine (key snapshots) by the harness and fed to the model",
     "granularity: one event = one complete server reaction (command processed / sweep finished / Close() returned); Close() racing with a "
     "concurrent sweep on another goroutine is not modelled; checkServerProtocolSession's pruning of proxys beyond 4 (120 s wall timer) is not modelled",
+    "a reply that reaches a blocked text handler whose peer is gone closes that connection on the handler's goroutine; the harness runs a second of "
+    "server time in its two phases (timeouts, then expiries) and lets that close finish in between; within one phase such a reply is ordered last",
     "net.Pipe stands for TCP: a write to a pipe whose peer is gone fails at once (a TCP write may succeed once more before the reset is seen)",
     "routing: 'announced the same client id' is 'at some point' (C18_routing_follows_adoption shows a connection that re-announced another id "
     "keeps the proxies it adopted); the all-zero client id counts as 'no id'",
@@ -92,7 +95,7 @@ def run(ctx):
             ctx.cov.setdefault("disagreements", []).append({"op": d[1], "impl": d[2], "model": d[3]})
     ctx.cov["rule"] = ("seeded lifetime scripts (random walk: open binary/text, INIT with a fresh / an already announced / the all-zero id, register will "
                        "LOCK/UNLOCK of eleven kinds (fresh / held / self-held / unheld key, unlock of an own hold or of an earlier will's hold, a repeated will frame, "
-                       "DbId 0xff, a db id never created, a db the will creates; lists of 1..5 and bursts of 7..28 wills), LOCK on a fresh or a held key, UNLOCK, virtual ticks, close by client EOF / protocol error / server-side "
+                       "DbId 0xff, a db id never created, a db the will creates; lists of 1..5 and bursts of 7..28 wills), LOCK on a fresh or a held key, UNLOCK, virtual ticks, binary ADMIN (nested text protocol on the same stream), close by client EOF / protocol error / QUIT / server-side "
                        "stream.Close(), close again) on up to 6 connections + same-id helper connections, ending with every connection closed, queued "
                        "requests timed out, engine drained, 18 s, census; lifetimes that can hit the Close() recursion run in a child process; "
                        "distinct_nontrivial = distinct scripts in which a will ran, a reply was delivered, or the server died")
